@@ -52,6 +52,17 @@ int main() {
     }
     if (!bad && g_ctor.load() - c0 != g_dtor.load() - d0) { std::printf("result objects constructed %d, destroyed %d\n", g_ctor.load() - c0, g_dtor.load() - d0); bad = 1; }
   }
+  {  // assignment of a future to itself through an alias (v[i] = v[perm[i]] with a fixed point) must leave it valid and its result alive
+    std::vector<dispenso::Future<Res>> v;
+    for (int i = 0; i < 8; ++i) v.push_back(dispenso::async(pool, [i]() { return Res(1000 + i); }));
+    for (auto& f : v) f.wait();
+    std::this_thread::sleep_for(std::chrono::milliseconds(30));   // the pool's own reference is gone by now: each future is the last owner
+    for (int i = 0; i < 8; ++i) { dispenso::Future<Res>& a = v[i]; const dispenso::Future<Res>& b = v[i]; a = b; }
+    std::vector<dispenso::Future<Res>> w;
+    for (int i = 0; i < 8; ++i) w.push_back(dispenso::async(pool, [i]() { return Res(2000 + i); }));
+    for (auto& f : w) f.wait();
+    for (int i = 0; i < 8; ++i) { const Res& r = v[i].get(); if (r.magic != 0xC0FFEE1234ull || r.v != 1000 + i) { std::printf("future %d: after self-assignment get() returned %d (expected %d)\n", i, r.v, 1000 + i); bad = 1; break; } }
+  }
   if (bad) { std::printf("Future: property C18 violated on the real code\n"); return 1; }
   std::printf("functor ran once per future; every get() returned the same live object\n");
   return 0;
